@@ -126,7 +126,7 @@ class PhaseSpaceGenerator(object):
             n_iter2 = int(1.01 * (n_total - n_gen) / (n_gen + 1) * n_iter)
             n_iter2 = min(n_iter2, 4000000)
             mass2 = self.generate_mass(n_iter2)
-            mass_f2 = self.flatten_mass(mass2)
+            mass_f2 = self.flatten_mass(mass2, importances=importances)
             n_gen += mass_f2[0].shape[0]
             n_total += n_iter2
             mass_f = [tf.concat([i, j], 0) for i, j in zip(mass_f, mass_f2)]
